@@ -161,7 +161,7 @@ func protoMode(args []string) int {
 			detail := func() map[string]any {
 				return map[string]any{"case": myIdx, "curve": ci.name, "a": hxlib.Hex(a[:]), "b": hxlib.Hex(b[:]),
 					"tapes": fmt.Sprintf("%d/%d/%d", s1, s2, s3),
-					"rerun": fmt.Sprintf("c18 proto -seed %d -n %d -tier %s -only %d", cf.Seed, cf.N, cf.Tier, myIdx)}
+					"rerun": fmt.Sprintf("go run -tags verif ./cmd/c18 proto -repo %s -seed %d -n %d -tier %s -only %d", repo, cf.Seed, cf.N, cf.Tier, myIdx)}
 			}
 			s, err := runSession(ci, a, b, s1, s2, s3)
 			if err != nil {
@@ -267,7 +267,7 @@ func protoMode(args []string) int {
 			o.Count("mismatch_" + what + "_" + class)
 			if class == "panic" || (wantErr && class != "err") {
 				failK(o, "c18-mismatch-not-rejected", map[string]any{"curve": ci.name, "what": what, "class": class, "msg": msg,
-					"rerun": fmt.Sprintf("c18 proto -seed %d -n %d -tier %s", cf.Seed, cf.N, cf.Tier)})
+					"rerun": fmt.Sprintf("go run -tags verif ./cmd/c18 proto -repo %s -seed %d -n %d -tier %s", repo, cf.Seed, cf.N, cf.Tier)})
 			}
 		}
 		chk("round3-foreign-msg2", true, func() error {
